@@ -175,10 +175,28 @@ type Cfg struct {
 	Chunk  uint64
 	ViaHTTP bool
 	NoUser bool // do not apply the scenario's user stylesheets
+	Probes []int // active pages-probes (restart pattern); nil = none (the restart-free twin)
+}
+
+// probeCSS is the user stylesheet that turns the literal probes of S into real
+// counter(pages) probes.
+func probeCSS(active []int) string {
+	if len(active) == 0 {
+		return ""
+	}
+	var sel []string
+	for _, k := range active {
+		sel = append(sel, fmt.Sprintf(".p%d::after", k))
+	}
+	return strings.Join(sel, ", ") + ` { content: "np" counter(pages) !important }` + "\n"
 }
 
 func (c Cfg) String() string {
-	return fmt.Sprintf("%s/h%v/z%g/%s", c.Engine, c.Hints, c.Zoom, c.Input)
+	s := fmt.Sprintf("%s/h%v/z%g/%s", c.Engine, c.Hints, c.Zoom, c.Input)
+	if len(c.Probes) > 0 {
+		s += fmt.Sprintf("/probes%v", c.Probes)
+	}
+	return s
 }
 
 // docOps returns the ops of one complete, self-contained render of a scenario.
@@ -196,6 +214,11 @@ func docOps(sc *Scenario, cfg Cfg, prefix string, withLayout bool) []Op {
 			ops = append(ops, Op{Op: "css", ID: id, Scenario: sc.Name, File: f})
 			cssIDs = append(cssIDs, id)
 		}
+	}
+	if css := probeCSS(cfg.Probes); css != "" {
+		id := prefix + "probes"
+		ops = append(ops, Op{Op: "css", ID: id, Text: css})
+		cssIDs = append(cssIDs, id)
 	}
 	ops = append(ops, Op{Op: "html", ID: prefix + "h", Scenario: sc.Name, Input: cfg.Input, Media: cfg.Media, Chunk: cfg.Chunk, ViaHTTP: cfg.ViaHTTP})
 	if withLayout {
